@@ -287,19 +287,11 @@ func buildPoint(c *pbt.C, variant int) (*View, error) {
 	}
 	u := func(i int) types.Address { return sim.UserKey(i).Address }
 	zq := func(v int64) *big.Int { return new(big.Int).Mul(big.NewInt(v), big.NewInt(sim.Zexp)) }
-	storage := func(ct types.Address) interface {
-		Get([]byte) ([]byte, error)
-	} {
-		return h.A.Chain.GetFrontierAccountStore(ct).Storage()
-	}
-	_ = storage
-
 	if err := produce(3); err != nil {
 		return nil, err
 	}
 	// 1. bridge and liquidity administration
 	if err := bridgeScriptN(h, 14+4*variant, 10); err != nil {
-		BridgeScriptErr = err
 		pointNote("%v", err)
 	}
 	if err := sim.LiquidityScript(h); err != nil {
@@ -1631,7 +1623,7 @@ func (t *Truth) network(class, chain uint32) *definition.NetworkInfo {
 
 func securityObj(s *definition.SecurityInfoVariable) obj {
 	return obj{"guardians": strList(len(s.Guardians), func(i int) string { return s.Guardians[i].String() }),
-		"guardiansVotes": strList(len(s.GuardiansVotes), func(i int) string { return s.GuardiansVotes[i].String() }),
+		"guardiansVotes":     strList(len(s.GuardiansVotes), func(i int) string { return s.GuardiansVotes[i].String() }),
 		"administratorDelay": s.AdministratorDelay, "softDelay": s.SoftDelay}
 }
 
@@ -2076,7 +2068,9 @@ func pTimeChallenges(e *Env, t *Truth) {
 	if got.Count != len(tcs) || len(got.List) != len(tcs) {
 		c.Failf(pk(k, "count"), "%s: count %d with %d entries, the contract storage holds %d challenges %v: %s", k, got.Count, len(got.List), len(tcs), names, clip(a.JSON))
 	}
-	sort.SliceStable(got.List, func(i, j int) bool { return fmt.Sprint(got.List[i]["MethodName"]) < fmt.Sprint(got.List[j]["MethodName"]) })
+	sort.SliceStable(got.List, func(i, j int) bool {
+		return fmt.Sprint(got.List[i]["MethodName"]) < fmt.Sprint(got.List[j]["MethodName"])
+	})
 	pending := false
 	for i, n := range names {
 		tc := tcs[n]
@@ -2727,7 +2721,6 @@ func pRequiredPoW(e *Env, t *Truth) {
 	c, v := e.C, e.V
 	var param embedded.GetRequiredParam
 	var base uint64
-	baseKnown := true
 	switch e.weighted("pow.kind", 5, 3, 2) {
 	case 0:
 		// an existing block of a user account
@@ -2794,7 +2787,6 @@ func pRequiredPoW(e *Env, t *Truth) {
 		}
 		return
 	}
-	_ = baseKnown
 	e.expect(k, a, obj{"availablePlasma": avail, "basePlasma": base, "requiredDifficulty": need * constants.PoWDifficultyPerPlasma})
 	if avail > 0 {
 		e.seen(k, "")
@@ -3190,7 +3182,8 @@ func buildSubWorld(c *pbt.C) {
 		}
 		for _, in := range sim.DefaultIntents() {
 			switch in.Name {
-			case "token-issue", "token-mint", "token-burn", "plasma-fuse", "plasma-cancel", "stake", "stake-cancel", "pillar-delegate", "donate", "htlc-create", "htlc-unlock", "htlc-reclaim", "collect-reward", "deposit-qsr", "withdraw-qsr":
+			case "token-issue", "token-mint", "plasma-fuse", "stake", "stake-cancel", "pillar-delegate", "htlc-create", "htlc-unlock", "htlc-reclaim", "collect-reward", "deposit-qsr", "withdraw-qsr":
+				// (nothing that takes funds or plasma out of the ring for good: the world serves every case of the process)
 				h.Intents = append(h.Intents, in)
 			}
 		}
@@ -3263,9 +3256,12 @@ func TestC18Subscribe(t *testing.T) {
 		users := h.Users
 		a := users[c.Pick("sub.a", len(h.W.Spec.Users))] // a funded user
 		b := users[c.Pick("sub.b", len(users))]
-		switch c.Weighted("sub.bkind", 4, 1, 1) {
+		switch c.Weighted("sub.bkind", 4, 1, 1, 1) {
+		case 3:
+			b = types.ZeroAddress // (the addressee receive blocks name)
+			c.Class("unreceived-filter-on-the-zero-address")
 		case 1:
-			b = types.PlasmaContract
+			b = types.HtlcContract
 			c.Class("unreceived-filter-on-a-contract")
 		case 2:
 			b = a
@@ -3294,17 +3290,12 @@ func TestC18Subscribe(t *testing.T) {
 		}
 		// a block that matches every filter: a send of a to b
 		marker := func(tag string) *nom.AccountBlock {
-			var data []byte
-			if !types.IsEmbeddedAddress(b) {
-				data = []byte(tag)
-			} else {
-				data = definition.ABIPlasma.PackMethodPanic(definition.FuseMethodName, a)
-			}
-			amt, z := big.NewInt(1), types.ZnnTokenStandard
+			// (costs nothing: an empty transfer with a note, or a call that sets what is set already)
+			data := []byte(tag)
 			if types.IsEmbeddedAddress(b) {
-				amt, z = big.NewInt(10*sim.Zexp), types.QsrTokenStandard
+				data = definition.ABIHtlc.PackMethodPanic(definition.AllowHtlcProxyUnlockMethodName)
 			}
-			blk, err := h.Submit(&nom.AccountBlock{Address: a, ToAddress: b, TokenStandard: z, Amount: amt, Data: data}, "marker "+tag)
+			blk, err := h.Submit(&nom.AccountBlock{Address: a, ToAddress: b, TokenStandard: types.ZnnTokenStandard, Amount: big.NewInt(0), Data: data}, "marker "+tag)
 			if err != nil {
 				return nil
 			}
@@ -3315,6 +3306,8 @@ func TestC18Subscribe(t *testing.T) {
 		for {
 			if marker(fmt.Sprintf("warm-up %d", warm)) == nil || !h.Produce(0) {
 				c.Note("the marker block was refused or the producer stopped: nothing to observe")
+				c.Class("ended-early: marker block refused")
+				h.Produce(0)
 				return
 			}
 			warm++
@@ -3344,12 +3337,14 @@ func TestC18Subscribe(t *testing.T) {
 			c.Class("subscription-installed-late")
 		}
 		// the observed life of the chain
-		n := c.Int("sub.momentums", 1, 24)
+		n := 1 + (&Env{C: c}).pick("sub.momentums", 24)
 		for m := 0; m < n && !h.Dead; m++ {
-			for k := c.Int("sub.actions", 0, 4); k > 0; k-- {
+			for k := (&Env{C: c}).pick("sub.actions", 5); k > 0; k-- {
 				switch c.Weighted("sub.act", 3, 2, 2, 2, 1) {
 				case 0:
-					h.ActTransfer()
+					from, to := users[c.Pick("sub.trFrom", len(users))], users[c.Pick("sub.trTo", len(users))]
+					z := []types.ZenonTokenStandard{types.ZnnTokenStandard, types.QsrTokenStandard}[c.Pick("sub.trToken", 2)]
+					_, _ = h.Submit(&nom.AccountBlock{Address: from, ToAddress: to, TokenStandard: z, Amount: big.NewInt(int64(c.Int("sub.trAmount", 0, 100)))}, "transfer inside the ring")
 				case 1:
 					h.ActReceive()
 				case 2:
@@ -3370,6 +3365,8 @@ func TestC18Subscribe(t *testing.T) {
 		}
 		if last == nil || !h.Produce(0) {
 			c.Note("the final marker block was refused: nothing to conclude")
+			c.Class("ended-early: marker block refused")
+			h.Produce(0)
 			return
 		}
 		flush := h.A.Height()
@@ -3554,7 +3551,7 @@ func TestC18Subscribe(t *testing.T) {
 		}
 		if dupNote != "" {
 			// a genuine defect of rpc/api/subscribe, reported; asserted only once it is registered as a known finding
-			c.Class("finding: contract-generated block notified twice (asserted only as a known finding)")
+			c.Class("finding-descendant-notified-twice (asserted only when registered as known)")
 			if c.Known(keySubDuplicate) {
 				c.Failf(keySubDuplicate, "%s", dupNote)
 			}
